@@ -2,4 +2,5 @@ SPECIFICATION Spec
 CONSTANTS
   MaxLen = 6
   CountsIfndef = TRUE
+  CountsCloses = FALSE
 INVARIANTS ShippedWellFormedAgree
